@@ -309,7 +309,24 @@ func specDescription(t []byte) ([]byte, bool) {
 // specAnnotation: an annotation is its text with white-space runs collapsed to one blank and no surrounding blanks
 // (written from the statement of C15).
 func specAnnotation(t string) string {
-	return strings.Join(strings.Fields(t), " ")
+	// surrounding white space (any Unicode white space) is dropped; inside, only runs of the blanks of the annotation
+	// grammar — space, tab, line ends, form feed — collapse; other white space (no-break space, vertical tab, …) is text
+	t = strings.TrimSpace(t)
+	var b strings.Builder
+	in := false
+	for i := 0; i < len(t); i++ {
+		c := t[i]
+		if c == ' ' || c == '\t' || c == '\n' || c == '\r' || c == '\f' {
+			if !in {
+				b.WriteByte(' ')
+			}
+			in = true
+			continue
+		}
+		in = false
+		b.WriteByte(c)
+	}
+	return b.String()
 }
 
 // c15AnnotationSpelling: the same annotation text written after "//" and between "/*" and "*/", on every kind of line
@@ -328,7 +345,7 @@ func c15AnnotationSpelling(ctx *Ctx, r *Rng) {
 		{"server", "", "SERVER @s", "\n  BaseUrl \"http://x\"\nGET /a\n  200 any\n", []string{"servers", "@s", "annotation"}},
 		{"rpc method", "URL /r\n  Protocol json-rpc-2.0\n", "  Method foo", "\n    Params\n    {}\n", []string{"interactions", "json-rpc-2.0 foo /r", "annotation"}},
 	}
-	pieces := []string{"a", "b c", " ", "  ", "*", "**", "/", "\t", "\"", "x*y", "*/", "#"}
+	pieces := []string{"a", "b c", " ", "  ", "*", "**", "/", "\t", "\"", "x*y", "*/", "#", "\u00a0", "\v", "\u2009"}
 	var texts []string
 	var rec func(prefix string, depth int)
 	rec = func(prefix string, depth int) {
